@@ -680,6 +680,6 @@ def parseFuel (fuel : Nat) (ts : List Tok) : Option Expr :=
   | some (e, []) => some e
   | _ => none
 
-def parse (ts : List Tok) : Option Expr := parseFuel (40 * ts.length + 40) ts
+def parse (ts : List Tok) : Option Expr := parseFuel (400 * ts.length + 400) ts
 
 end PonyVerif.Model.PyPrint
